@@ -450,7 +450,23 @@ impl<'a> Gen<'a> {
         let n = self.r.range(1, width as u64) as usize;
         let mut f: Vec<Field> = Vec::new();
         while f.len() < n {
-            match self.r.below(12) {
+            match self.r.below(13) {
+                12 => {
+                    // two flags ahead of their two targets: both skips are pending at the same time
+                    let (ta, tb) = (self.name(), self.name());
+                    for t in [ta.clone(), tb.clone()].iter() {
+                        let trig = self.r.below(2) as u32;
+                        let val = if self.r.chance(2, 3) { trig } else { trig + 1 };
+                        f.push(Field { name: self.name(), d: D::U8(val as u8), rel: Rel::SkipIf(t.clone(), trig) });
+                    }
+                    if self.r.chance(1, 3) {
+                        let d = self.leaf();
+                        f.push(Field { name: self.name(), d, rel: Rel::None });
+                    }
+                    let (da, db) = (self.leaf(), self.leaf());
+                    f.push(Field { name: ta, d: da, rel: Rel::None });
+                    f.push(Field { name: tb, d: db, rel: Rel::None });
+                }
                 0..=4 => {
                     let d = self.leaf();
                     f.push(Field { name: self.name(), d, rel: Rel::None });
